@@ -81,31 +81,47 @@ ASSUME_PATTERNS = [
     (r'#\[verifier::external\]', 'external'),
     (r'exec_allows_no_decreases_clause', 'exec_allows_no_decreases_clause'),
     (r'#\[verifier::rlimit', 'rlimit attribute'),
+    (r'\baxiom\s+fn\b', 'axiom'),
 ]
 
 
 def scan_assumptions(gen_text):
-    """Mechanical scan of the generated file: every construct that is an assumption, with the line it is on and
-    the nearest preceding `// [trusted: ...]` / `[kani: ...]` tag."""
+    """Mechanical scan of the generated file: every construct that is an assumption, the item it is attached to and the
+    `[trusted: ...]` / `[kani: ...]` tag of the comment block directly above it (or 'untagged')."""
     out = []
     lines = gen_text.split('\n')
-    last_tag = ''
-    last_tag_line = -100
     for i, ln in enumerate(lines):
-        m = re.search(r'\[(trusted|kani):\s*([^\]]*)\]?', ln)
-        if m and ln.strip().startswith('//'):
-            last_tag = f'{m.group(1)}: {m.group(2).strip()}'
-            last_tag_line = i
+        st = ln.strip()
+        if st.startswith('//'):
+            continue
         for rx, name in ASSUME_PATTERNS:
-            if re.search(rx, ln) and not ln.strip().startswith('//'):
-                # what does it apply to: next non-attribute line
-                j = i
-                target = ln.strip()
-                while j + 1 < len(lines) and (lines[j].strip().startswith('#[') or lines[j].strip() == ''):
-                    j += 1
-                    target = lines[j].strip()
-                tag = last_tag if i - last_tag_line < 40 else 'untagged'
-                out.append({'construct': name, 'line': i + 1, 'on': target[:140], 'tag': tag})
+            m = re.search(rx, ln)
+            if not m:
+                continue
+            # the item: rest of this line after the attribute, else the next non-attribute, non-empty line
+            rest_ = re.sub(r'#\[[^\]]*\]', '', ln).strip()
+            j = i
+            target = rest_
+            while not target and j + 1 < len(lines):
+                j += 1
+                target = re.sub(r'#\[[^\]]*\]', '', lines[j]).strip()
+            # tag: walk up over attributes / blank lines to the nearest comment block
+            k = i - 1
+            tag = 'untagged'
+            hops = 0
+            while k >= 0 and hops < 12:
+                sk = lines[k].strip()
+                mt = re.search(r'\[(trusted|kani):\s*([^\]]*)\]?', sk)
+                if sk.startswith('//') and mt:
+                    tag = f'{mt.group(1)}: {mt.group(2).strip()}'
+                    break
+                if sk.startswith('//') or sk.startswith('#[') or sk == '' or 'external_body' in sk or 'assume_specification' in sk \
+                        or 'uninterp' in sk or sk.startswith('impl ') or sk.startswith('pub fn') or sk.startswith('{') or sk.startswith('ensures') or sk.startswith('requires'):
+                    k -= 1
+                    hops += 1
+                    continue
+                break
+            out.append({'construct': name, 'line': i + 1, 'on': target[:150], 'tag': tag})
     return out
 
 
